@@ -2003,3 +2003,36 @@ V('C09', 'abort-any-depth', BLK, "                if err.__traceback__.tb_next i
   "                if err.__traceback__ is not None:\n", 'R09.3',
   note="a call with wrong parameters (one traceback level) stops the simulation")
 V('C09', 'abort-without-cause-run', BLK, "                    sim_err.__cause__ = err\n", "                    pass\n", 'R09.3')
+
+# ----------------------------------------------------------------------------- R12.7
+V('C12', 'cancel-arm-reraises', S2, """            for ev in self._on_cancel:
+                ev.send(self, trigger='cancel', put=data)
+        except Exception as err:
+            self.log_error(
+""", """            for ev in self._on_cancel:
+                ev.send(self, trigger='cancel', put=data)
+            if self._ctrl_coro == self._ctrl_wait:
+                raise
+        except Exception as err:
+            self.log_error(
+""", 'R12.7', note="wait mode: a cancelled run ends the control coroutine")
+V('C12', 'wrapper-raises-on-cancel-outcome', S2, """        finally:
+            self.set_output(self.output - 1)
+
+
+    async def _ctrl_cancel""", """        finally:
+            self.set_output(self.output - 1)
+        if self._stop_data is data and asyncio.current_task() is self._ctrl_task:
+            raise asyncio.CancelledError()
+
+
+    async def _ctrl_cancel""", 'R12.7')
+E('C12', 'local-raise-caught', S2, """        if tasks:
+            await asyncio.gather(*tasks, return_exceptions=True)
+""", """        try:
+            if not tasks:
+                raise LookupError
+            await asyncio.gather(*tasks, return_exceptions=True)
+        except LookupError:
+            pass
+""", note="an explicit raise absorbed by the local handler does not escape")
